@@ -64,8 +64,8 @@ def render_cfg(consts, tier, impl, kind, fams=None):
                   "PROPERTY RejectedNoEffect"]
         if kind == "mc":
             lines.append("ACTION_CONSTRAINT ExportMsg")
-    elif kind == "sim":
-        lines += ["INIT BuildInit", "NEXT BuildNext",
+    elif kind in ("sim", "sim2"):
+        lines += ["INIT BuildInit", "NEXT BuildNext" if kind == "sim" else "NEXT BuildNext2",
                   "INVARIANTS AdmitImpliesWithin AcceptedOnlyWithin StoredWithinLimits",
                   "ACTION_CONSTRAINT ExportMsg"]
     elif kind == "trace":
@@ -120,10 +120,15 @@ def j1(consts, tier, impl, export=True, timeout=1500):
     return rs
 
 
-def j1_sim(consts, num, seed, timeout=900):
-    cfg = render_cfg(consts, "quick", "intended", "sim")
+def j1_sim(consts, num, seed, timeout=900, kind="sim"):
+    """TLC -simulate of a message builder: sim = any field any class (14 steps), sim2 = groups of valid units around
+    the per-group totals (5 steps)."""
+    c = dict(consts)
+    if kind == "sim2":
+        c["BuildSteps"] = 5
+    cfg = render_cfg(c, "quick", "intended", kind)
     return vlib.tlc(SPEC_DIR, "Limits", "SIM_gen.cfg", extra_files={"SIM_gen.cfg": cfg}, timeout=timeout,
-                    workers=1, simulate=dict(num=num, depth=consts["BuildSteps"] + 3, seed=seed), deadlock=False)
+                    workers=1, simulate=dict(num=num, depth=c["BuildSteps"] + 3, seed=seed), deadlock=False)
 
 
 def run_harness(vh, msgs, seed, workdir, name="trace"):
@@ -242,12 +247,14 @@ def run(pid, tier, seed, replay):
 
     # ---- J1: design check + enumeration; in parallel: the as-found variant and the random builder
     t1 = time.time()
-    nsim = 1500 if tier == "quick" else 40000
-    with ThreadPoolExecutor(max_workers=3) as ex:
+    nsim = 600 if tier == "quick" else 8000
+    sim_jobs = [("sim", seed), ("sim2", seed + 1)] if tier == "quick" else \
+        [(k, seed + 1000 * i + j) for i in range(3) for j, k in enumerate(("sim", "sim2"))]
+    with ThreadPoolExecutor(max_workers=2 + len(sim_jobs)) as ex:
         f_main = ex.submit(j1, consts, tier, "intended", True, 2400)
         f_asf = ex.submit(j1, consts, "tiny", "asfound", False, 600)
-        f_sim = ex.submit(j1_sim, consts, nsim, seed, 1800)
-        main, ra, rs = f_main.result(), f_asf.result()[0], f_sim.result()
+        f_sims = [ex.submit(j1_sim, consts, nsim, sd, 1800, kind) for kind, sd in sim_jobs]
+        main, ra, rss = f_main.result(), f_asf.result()[0], [f.result() for f in f_sims]
     exported, states, generated = [], 0, 0
     for fams, r in zip(FAM_GROUPS[tier], main):
         vlib.tlc_require_ok(r, "J1 Limits (Impl=intended, Tier=%s, Fams=%s)" % (tier, fams))
@@ -266,9 +273,11 @@ def run(pid, tier, seed, replay):
     if not asfound_detected:
         raise vlib.Inconclusive("J1 vacuity guard: Impl=asfound did not violate the invariants (%r)" % ra)
     # random messages from the product space (TLC simulation of the builder)
-    if not rs.ok:
-        raise vlib.Inconclusive("J1 simulation failed: violated=%s\n%s" % (rs.violated, (rs.error or rs.out[-2000:])))
-    sim = [x for x in printed_json(rs.out) if "verdict" in x]
+    sim = []
+    for rs in rss:
+        if not rs.ok:
+            raise vlib.Inconclusive("J1 simulation failed: violated=%s\n%s" % (rs.violated, (rs.error or rs.out[-2000:])))
+        sim += [x for x in printed_json(rs.out) if "verdict" in x]
     vlib.log("[C19] J1: %d messages enumerated (%d distinct states) + %d simulated, as-found variant violates %s, %.1fs" % (
         len(exported), states, len(sim), ra.violated, time.time() - t1))
 
